@@ -38,6 +38,8 @@ write_error(Error) :-
 :- non_counted_backtracking '$print_message_and_fail'/1.
 
 '$print_message_and_fail'(Error) :-
+    % an interrupt is not an error of the expansion hook: pass it on
+    (  nonvar(Error), Error = error('$interrupt_thrown', _) -> throw(Error) ; true ),
     write_error(Error),
     nl,
     '$fail'.
@@ -762,9 +764,11 @@ strip_subst_module(Goal, M1, M2, G) :-
  * when expand_goal is later invoked at runtime.
  */
 
-:- non_counted_backtracking subgoal_expansion_fail/1.
+:- non_counted_backtracking subgoal_expansion_fail/2.
 
-subgoal_expansion_fail(B) :-
+subgoal_expansion_fail(E, B) :-
+    % an interrupt is not an error of the expansion hook: pass it on
+    (  nonvar(E), E = error('$interrupt_thrown', _) -> throw(E) ; true ),
     builtins:set_cp(B),
     fail.
 
@@ -775,8 +779,8 @@ subgoal_expansion(Goal, Module, ExpandedGoal) :-
     (  atom(Module),
        '$predicate_defined'(Module, goal_expansion, 2),
        catch('$call'(Module:goal_expansion(Goal, ExpandedGoal0)),
-             _E,
-             '$call'(loader:subgoal_expansion_fail(B))
+             E,
+             '$call'(loader:subgoal_expansion_fail(E, B))
             ),
        (  var(ExpandedGoal0) ->
           error:instantiation_error(goal_expansion/2)
